@@ -41,6 +41,8 @@ impl KnowledgeBase {
     /// Add a rule to the knowledge base
     pub fn add_rule(&self, rule: Rule) -> Result<()> {
         let mut rules = self.rules.write().unwrap();
+        #[cfg(feature = "verif-hooks")]
+        crate::verif_hooks::sched_point("kb.add_rule.after_rules_lock");
         let mut index = self.rule_index.write().unwrap();
         let mut version = self.version.write().unwrap();
 
@@ -84,6 +86,8 @@ impl KnowledgeBase {
     /// Remove a rule by name
     pub fn remove_rule(&self, rule_name: &str) -> Result<bool> {
         let mut rules = self.rules.write().unwrap();
+        #[cfg(feature = "verif-hooks")]
+        crate::verif_hooks::sched_point("kb.remove_rule.after_rules_lock");
         let mut index = self.rule_index.write().unwrap();
         let mut version = self.version.write().unwrap();
 
@@ -106,6 +110,8 @@ impl KnowledgeBase {
     /// Get a rule by name
     pub fn get_rule(&self, rule_name: &str) -> Option<Rule> {
         let rules = self.rules.read().unwrap();
+        #[cfg(feature = "verif-hooks")]
+        crate::verif_hooks::sched_point("kb.get_rule.after_rules_lock");
         let index = self.rule_index.read().unwrap();
 
         if let Some(&position) = index.get(rule_name) {
@@ -151,6 +157,8 @@ impl KnowledgeBase {
     /// Enable or disable a rule
     pub fn set_rule_enabled(&self, rule_name: &str, enabled: bool) -> Result<bool> {
         let mut rules = self.rules.write().unwrap();
+        #[cfg(feature = "verif-hooks")]
+        crate::verif_hooks::sched_point("kb.set_rule_enabled.after_rules_lock");
         let index = self.rule_index.read().unwrap();
         let mut version = self.version.write().unwrap();
 
@@ -170,6 +178,8 @@ impl KnowledgeBase {
     /// Clear all rules
     pub fn clear(&self) {
         let mut rules = self.rules.write().unwrap();
+        #[cfg(feature = "verif-hooks")]
+        crate::verif_hooks::sched_point("kb.clear.after_rules_lock");
         let mut index = self.rule_index.write().unwrap();
         let mut version = self.version.write().unwrap();
 
